@@ -801,6 +801,9 @@ def check_C17(tier, seed):
     run_inst_suite('C17', v, acc, 'C17-inst', 'MCInst', c, w, 5 if q else 7, seed, [], ['C17'])
     run_inst_suite('C17', v, acc, 'C17-slave', 'MCPort', port_consts(['sync', 'dresp', 'ts', 'tdreq', 'annP', 'bmca'], Prefix=('<-', 'PrefixSlave')), world(asym([e2e()])),
                    6 if q else 8, seed, [], ['C17'])
+    # frames the port must ignore (other domain / sdoId / version, filtered or unrelated senders): the paths that reject them take the lock too
+    run_inst_suite('C17', v, acc, 'C17-noise', 'MCPort', port_consts(['sync', 'dresp', 'ts', 'tdreq', 'n_filter', 'n_ann', 'n_slave'], PCfg=('<-', 'PCfg_L'), Prefix=('<-', 'PrefixSlave'), MaxRep=1),
+                   world(asym([e2e(aml=[2, 9])])), 5 if q else 7, seed, [], ['C17'])
     fw = dict(INST_CONST); fw.update({'Fwd': True, 'WithOther': True, 'PCfg': ('<-', 'PCfg_2'), 'ListSet': '{1, 6, 8}', 'PathSet': '{1, 2}', 'PTrace': True})
     run_inst_suite('C17', v, acc, 'C17-fwd', 'MCFwd', fw, world([e2e(), e2e()], fwd=True, ptrace=True), 4 if q else 5, seed, [], ['C17'])
     # randomised calls with the acquisition pattern of every call recorded (which data sets each write span changed)
